@@ -71,8 +71,12 @@ def _case(draw):
     for _c in range(5):
         d = draw(st.lists(st.tuples(_name3, _kind, _small), max_size=3, unique_by=lambda t: t[0]))
         decl.append([list(t) for t in d])
-    ops = draw(st.lists(_ops(), min_size=1, max_size=15))
-    return {"decl": decl, "ops": [list(o) for o in ops]}
+    ops = draw(st.lists(_ops(), min_size=1, max_size=13))
+    # reads first: the caches must be populated before the class-level changes for the history to be interesting
+    reads = draw(st.lists(st.tuples(st.just("read"), _cls, st.sampled_from(["list", "getitem", "values", "objects", "contains"])),
+                          max_size=3))
+    news = draw(st.lists(st.tuples(st.just("new"), _cls), max_size=2))
+    return {"decl": decl, "ops": [list(o) for o in news + reads + ops]}
 
 
 def strategy(tier):
